@@ -134,6 +134,8 @@ pub struct World {
     pub ip: IpAddr,
     /// virtual seconds elapsed
     pub now: u64,
+    /// id of this world's hook control block (several worlds may live on one thread)
+    pub ctl: usize,
 }
 
 #[derive(Clone, Debug, PartialEq, Eq)]
@@ -150,7 +152,7 @@ impl World {
             .start_paused(true)
             .build()
             .expect("runtime");
-        verif::activate(slots);
+        let ctl = verif::activate(slots);
         let main = Arc::new(MainState::new_from_config(config));
         World {
             rt,
@@ -159,6 +161,7 @@ impl World {
             polls: 0,
             ip: "127.0.0.1".parse().unwrap(),
             now: 0,
+            ctl,
         }
     }
 
@@ -169,6 +172,7 @@ impl World {
     /// Open connection `i` (must be Unconnected or ended) and run it up to its
     /// first gate (or to completion if refused).
     pub fn connect(&mut self, i: usize) -> Result<(), MachineryError> {
+        verif::select(self.ctl);
         let (client, server) = tokio::io::duplex(1 << 20);
         let fut = verif::run_conn(self.main.clone(), server, self.ip);
         let mut c = Conn::new();
@@ -195,6 +199,7 @@ impl World {
     /// Poll connection future `i` once.
     pub fn poll_conn(&mut self, i: usize) -> PollOut {
         let _g = self.rt.enter();
+        verif::select(self.ctl);
         verif::set_current(i);
         self.polls += 1;
         let fut = match self.conns[i].fut.as_mut() {
@@ -231,6 +236,7 @@ impl World {
         if !self.conns[i].is_live() {
             return None;
         }
+        verif::select(self.ctl);
         if verif::at_gate(i) {
             // a poll at the gate re-publishes fresh info and stays pending
             self.poll_conn(i);
@@ -244,6 +250,7 @@ impl World {
         if !self.conns[i].is_live() {
             return Ok(());
         }
+        verif::select(self.ctl);
         if !verif::at_gate(i) {
             return Err(MachineryError(format!("conn {} not at gate for {:?}", i, d)));
         }
@@ -526,6 +533,7 @@ pub fn info_kill_pending(info: &ConnInfo) -> bool {
 impl Drop for World {
     fn drop(&mut self) {
         let _g = self.rt.enter();
+        verif::select(self.ctl);
         // dropping futures may run Drop impls that panic on a corrupted state
         set_quiet_panics(true);
         for c in self.conns.iter_mut() {
@@ -534,6 +542,6 @@ impl Drop for World {
             c.client = None;
         }
         set_quiet_panics(false);
-        verif::deactivate();
+        verif::deactivate(self.ctl);
     }
 }
